@@ -32,7 +32,8 @@ Saddr == { [c |-> "saddr", family |-> fam, hexlen |-> n] : fam \in { 0, 1, 2, 10
 Selinux == { [c |-> "selinux", rtype |-> t, field |-> f, parts |-> n] : t \in { 1300, 1302, 1400, 1100 }, f \in { "subj", "obj" }, n \in 0..8 }
 
 Avc == { [c |-> "avc", form |-> f, rtype |-> t] :
-           f \in { "selinux", "no_braces", "empty_braces", "open_brace", "apparmor", "many_perms", "for_missing", "nested_braces" },
+           f \in { "selinux", "no_braces", "empty_braces", "open_brace", "apparmor", "many_perms", "for_missing", "nested_braces",
+                   "no_perms", "only_prefix", "braces_at_end", "double_for" },
            t \in { 1400, 1107, 1300 } }
 
 Execve == { [c |-> "execve", argc |-> n, present |-> p, enc |-> e] :
